@@ -146,17 +146,17 @@ theorem C13_gen_iq_types : ∃ l, Generated.C13.iqTypes = some l ∧ sameSet l i
 /-- the struct definitions the model of the struct-tag path (`marshalAttrs`, `reflectNew`) is
 written for: field order, field types and `xml` tags of the three stanza types -/
 theorem C13_gen_struct_tags : Generated.C13.stanzaTags = some [
-    ("IQ", [("XMLName", "Name", "iq"), ("ID", "string", "id,attr"), ("To", "JID", "to,attr,omitempty"),
-      ("From", "JID", "from,attr,omitempty"),
-      ("Lang", "string", "http://www.w3.org/XML/1998/namespace lang,attr,omitempty"), ("Type", "IQType", "type,attr")]),
-    ("Message", [("XMLName", "Name", "message"), ("ID", "string", "id,attr,omitempty"),
-      ("To", "JID", "to,attr,omitempty"), ("From", "JID", "from,attr,omitempty"),
-      ("Lang", "string", "http://www.w3.org/XML/1998/namespace lang,attr,omitempty"),
-      ("Type", "MessageType", "type,attr,omitempty")]),
-    ("Presence", [("XMLName", "Name", "presence"), ("ID", "string", "id,attr"), ("To", "JID", "to,attr"),
-      ("From", "JID", "from,attr"),
-      ("Lang", "string", "http://www.w3.org/XML/1998/namespace lang,attr,omitempty"),
-      ("Type", "PresenceType", "type,attr,omitempty")])] := by decide
+    ("IQ", [("Name", "iq"), ("string", "id,attr"), ("JID", "to,attr,omitempty"),
+      ("JID", "from,attr,omitempty"),
+      ("string", "http://www.w3.org/XML/1998/namespace lang,attr,omitempty"), ("IQType", "type,attr")]),
+    ("Message", [("Name", "message"), ("string", "id,attr,omitempty"),
+      ("JID", "to,attr,omitempty"), ("JID", "from,attr,omitempty"),
+      ("string", "http://www.w3.org/XML/1998/namespace lang,attr,omitempty"),
+      ("MessageType", "type,attr,omitempty")]),
+    ("Presence", [("Name", "presence"), ("string", "id,attr"), ("JID", "to,attr"),
+      ("JID", "from,attr"),
+      ("string", "http://www.w3.org/XML/1998/namespace lang,attr,omitempty"),
+      ("PresenceType", "type,attr,omitempty")])] := by decide
 
 /-- decoding (by reflection) what the standard marshaller prints for a value gives the value
 back, in no namespace: for canonical addresses and a defined type -/
